@@ -153,11 +153,24 @@ def extract_layout(facts, fname, version, hsd):
                 if os_ is not None and od is None:
                     fp = field_path(eng, d, st)
                     if fp:
-                        table.setdefault(fp, set()).add((os_.cval(), n.cval() if n is not None and n.is_const() else '?', 'bytes'))
+                        add_bytes(fp, d, os_.cval(), n.cval() if n is not None and n.is_const() else None)
                 if od is not None and os_ is None:
                     fp = field_path(eng, s2, st)
                     if fp:
-                        table.setdefault(fp, set()).add((od.cval(), n.cval() if n is not None and n.is_const() else '?', 'bytes'))
+                        add_bytes(fp, s2, od.cval(), n.cval() if n is not None and n.is_const() else None)
+    def add_bytes(fp, e_field, off, n):
+        """a block copy between the cursor and a member: when the member is an array of records that consist of one-byte fields only
+        (no padding is possible) and the copy covers it exactly, the copy IS the field-by-field copy - entered field by field"""
+        t_ = (strip(e_field).get('t') or {}) if isinstance(strip(e_field), dict) else {}
+        el = t_.get('el') or {}
+        rec = facts.records.get((el.get('s') or '').replace('struct ', '').replace('const ', '').strip()) if t_.get('arr') else None
+        if rec and n is not None and all((f_.get('t') or {}).get('sz') == 1 and not (f_.get('t') or {}).get('arr') for f_ in rec['fields']) and \
+                n == t_['arr'] * len(rec['fields']) and isinstance(off, int):
+            for i_ in range(t_['arr']):
+                for k_, f_ in enumerate(rec['fields']):
+                    table.setdefault('%s[%d].%s' % (fp, i_, f_['n']), set()).add((off + i_ * len(rec['fields']) + k_, 1, 'U8'))
+            return
+        table.setdefault(fp, set()).add((off, n if n is not None else '?', 'bytes'))
     eng.on_expr = on_expr
     s0 = State(Poly.const(INF))
     for role_, val_ in (('version', version), ('has_sounding_delays', hsd)):
